@@ -96,6 +96,9 @@ class Hub:
                 pass
             self.slave = None
         if fresh:
+            # a case is one hub life: module-level state of the authentication module starts as in a new process,
+            # so that cases (and the shrunk replays) do not depend on what the worker ran before
+            importlib.reload(self.auth)
             await self.persist.remove('device')
             if state.get('disk') is not None:
                 rec = {f'{u}_password_hash': v for u, v in state['disk'].items() if v != 'MISSING'}
